@@ -303,7 +303,7 @@ ASSUMPTIONS = ["the target names of different source files are distinct (checked
 
 
 # ---- a short history: write, overwrite, copy, move, delete --------------------------------------------------
-@harness("C11.history", cases=lambda tier: ["copy-then-delete-source", "move-back-and-forth", "overwrite-then-move"],
+@harness("C11.history", cases=lambda tier: ["copy-then-delete-source", "move-back-and-forth", "overwrite-then-move", "copy-overwrite-copy-again"],
          expect=lambda c: ["conserved-after-every-step"])
 def k_history(ctx):
     """what exists after a *sequence* of operations: at every step the selected files (symbolic period)
@@ -358,6 +358,19 @@ def k_history(ctx):
             quiet(b.move, a, worker_type="thread")               # everything that is in b goes back
             exp = {name_a(i): content[i] for i in range(3)}
             ctx.check("conserved-after-every-step", mfs.files == exp, detail="after moving back: %r" % sorted(mfs.files))
+        elif what == "copy-overwrite-copy-again":
+            # a backup that is refreshed: the second copy must carry the *current* content of every
+            # selected source file, also where a target of the same name (and possibly size) exists
+            quiet(a.move, b, copy=True, start=start, end=end, worker_type="thread")
+            for i in (0, 1):
+                a[times[i], {"sat": sats[i]}] = "payload-v2-%d" % i
+                content[i] = mfs.files[name_a(i)]
+            old = dict(mfs.files)
+            quiet(a.move, b, copy=True, start=start, end=end, worker_type="thread")
+            exp = {name_a(i): content[i] for i in range(3)}
+            exp.update({name_b(i): content[i] for i in range(3) if sel[i]})
+            ctx.check("conserved-after-every-step", mfs.files == exp,
+                      detail="after the second copy: %r (before it: %r)" % (mfs.files, old))
         else:
             a[times[1], {"sat": sats[1]}] = "payload-new"
             content[1] = mfs.files[name_a(1)]
